@@ -27,6 +27,11 @@ from hypothesis import strategies as st
 from tqv import gen, ref
 from tqv.core import Inconclusive, SubCheck, Violation, req
 
+# caller-owned arrays handed to the library must come back unchanged (see tqv/purity.py)
+from tqv.purity import install as _install_purity  # noqa: E402
+
+_install_purity('toqito.channel_props', 'toqito.channels', 'toqito.channel_ops')
+
 PROPERTY = "C06"
 RULE = (
     "Predicate cases are drawn by Hypothesis: a map family (Stinespring channel, adjoint of a Stinespring channel, unitary conjugation, mixture of >= 2 "
